@@ -264,7 +264,9 @@ def gen_op(rnd, s, u):
         big_ = [q for q in nonempty if len(_hl(s, q)) >= 3]
         if big_ and rnd.random() < 0.6:
             h = rnd.choice(big_)
-        return ['sort', list(h), rnd.choice(['name', 'id', ['name', 'id'], ['name'], 'nosuchattr', 5, 'prio', 'prio']), rnd.random() < 0.5]
+        has_prio = any('prio' in dict(v['attrs']) for v in s['T'].values())
+        keys = ['name', 'id', ['name', 'id'], ['name'], 'nosuchattr', 5, 'prio', 'prio'] + (['prio'] * 6 if has_prio else [])
+        return ['sort', list(h), rnd.choice(keys), rnd.random() < 0.5]
     if c < 54:
         h = list_holder()
         cur = _hl(s, h)
@@ -512,6 +514,7 @@ def run_history(prop, spec, ops, acc, gen=None, tail=True, judge_from=0, layer='
     u = Universe(spec)
     executed = []
     history = []
+    ever_member = set()
     n = len(ops) if ops is not None else gen[1]
     corrupt = False
     s_after = snap(u)
@@ -557,6 +560,23 @@ def run_history(prop, spec, ops, acc, gen=None, tail=True, judge_from=0, layer='
                   ['new', s_after['T'][rnd.choice([b_, c_])]['id'], 'n0', {'parent': a_}],
                   rnd.choice([['parent=', b_, a_], ['append', ['t', a_], b_], ['insert', ['t', a_], 0, c_], ['parent=', c_, a_]]),
                   rnd.choice([['parent=', c_, a_], ['append', ['t', a_], c_], ['floordiv', ['t', a_], [b_, c_], False]])]
+        n += len(prefix)
+    elif ops is None and len(s_after['T']) >= 4 and any('prio' in t for t in spec['tasks']) and gen[0].random() < 0.12:
+        # scenario prefix "sorting a partly filled column": many siblings, then a sort by an attribute whose values do not all
+        # compare with each other -- the call fails, and must fail without having moved anything
+        rnd = gen[0]
+        labs = list(s_after['T'])
+        w_ = rnd.choice(list(s_after['R']))
+        if rnd.random() < 0.5:
+            h_ = ['w', w_]
+            prefix = []
+        else:
+            h_ = ['t', labs[0]]
+            prefix = [['append', ['w', w_], labs[0]]]
+            labs = labs[1:]
+        rnd.shuffle(labs)
+        prefix += [['append', h_, lab] for lab in labs]
+        prefix += [['sort', h_, 'prio', rnd.random() < 0.5], ['sort', h_, rnd.choice(['prio', ['prio', 'id'], 'name']), rnd.random() < 0.5]]
         n += len(prefix)
     elif ops is None and gen[0].random() < 0.45:
         # builder prefix: a WBS tree with chains (depth up to 4) so that deep states are common starting points
@@ -730,6 +750,22 @@ def run_history(prop, spec, ops, acc, gen=None, tail=True, judge_from=0, layer='
                 still = [k for k in want_gone if k in reach1 or s1['T'][k]['owner'] is not None]
                 if still:
                     viol.append(('C11', f'C11/removed-task-still-member/{name}', f'{name} returned, but {still} (to be released by it) are still members / still report an owner'))
+        ever_member.update(k for k, v in s1['T'].items() if v['owner'] is not None)
+        if outcome == 'raise:RuntimeError' and exp and op[0] in ('append', 'insert', 'parent=', 'floordiv'):
+            # last clause of C11: a task that left a WBS "can be attached to another WBS" -- the attach call may be refused only
+            # for a documented reason (cycle, link to an ancestor, id already present), i.e. when its documented effect would
+            # break an invariant
+            subj = op[1] if op[0] == 'parent=' else (op[3] if op[0] == 'insert' else (op[2] if op[0] == 'append' else (op[2][0] if len(op[2]) == 1 else None)))
+            recv = ('t', op[2]) if op[0] == 'parent=' else tuple(op[1])
+            if subj in s0['T'] and (recv[0] == 'w' or recv[1] in s0['T']) and not (op[0] == 'parent=' and op[2] is None):
+                rel = s0['T'][subj]['owner'] is None and s0['T'][subj]['parent'] is None and subj in ever_member
+                target_w = recv[1] if recv[0] == 'w' else s0['T'][recv[1]]['owner']
+                if rel and target_w is not None and not _polluted(s0) and not invariants(s0) and all(not invariants(e_) for e_ in exp):
+                    if prop == 'C11':
+                        acc.count('released_task_attach_refusals_judged')
+                    viol.append(('C11', f'C11/released-task-refused/{name}', f'{name}: {subj} (left its WBS, no owner, no parent) refused by {recv} of {target_w} although the attachment breaks nothing'))
+        if prop == 'C11' and outcome == 'ok' and op[0] in ('append', 'insert', 'parent=', 'floordiv'):
+            acc.count('attach_calls_accepted')
         # ---- C15
         if outcome != 'ok' and op[0] not in ('stale.get', 'linkview.get'):
             if prop == 'C15':
